@@ -55,10 +55,12 @@ func init() {
 			return "bad-op"
 		},
 		Gen: func(w *bufio.Writer, seed int64, tier string) {
-			r := newRng(seed)
-			n := 700
+			r := newRngMixed(seed)
+			n := 600
+			c37BigPerMille = 2
 			if tier == "thorough" {
-				n = 30000
+				n = 6000
+				c37BigPerMille = 5
 			}
 			okKey := func(k string) bool { return k != "" && !strings.ContainsAny(k, "=\x00") }
 			for i := 0; i < n; i++ {
@@ -131,16 +133,19 @@ func init() {
 // tens of kilobytes with thousands of references).
 func c37Size(r *rng) int {
 	switch x := r.intn(1000); {
-	case x < 955:
+	case x < 1000-12*c37BigPerMille:
 		return 1 + r.intn(10)
-	case x < 990:
+	case x < 1000-3*c37BigPerMille:
 		return 100 + r.intn(600)
-	case x < 998:
+	case x < 1000-c37BigPerMille/2:
 		return 2000 + r.intn(3000)
 	default:
 		return 20000
 	}
 }
+
+// c37BigPerMille: how often (per mille) an environment value / a text is a large one; set per tier.
+var c37BigPerMille = 2
 
 var c37Names = []string{"V", "W", "V1", "VAR", "X", "A", "b", "_", "_a9", "V:-d", "V W", "\xc3\xa9", "V:", "{V"}
 
@@ -168,7 +173,7 @@ func c37Text(r *rng, n int) string {
 
 // c37Value: environment values, many of which look like references themselves.
 func c37Value(r *rng) string {
-	if r.chance(2) { // large values around typical buffer sizes, themselves full of references
+	if r.intn(1000) < c37BigPerMille { // large values around typical buffer sizes, themselves full of references
 		return strings.Repeat("${V}$W-", r.pick(255, 256, 257, 4095, 4096, 4097, 65535, 65536, 65537)/7+1)
 	}
 	switch r.intn(8) {
